@@ -380,7 +380,7 @@ fn soft_keywords_named(cx: &mut Ctx, rule: &str, lookahead: bool) {
                 cx.fail(rule, &format!("{}/soft_to_name", rule), &sk.loc(*f), &format!("soft_to_name table is {:?}", map));
             }
             let t = sm::tsx(&f.block);
-            if t.contains("Tok::Name{name:name.to_owned(),}") || t.contains("Tok::Name{name:name.to_owned()}") {
+            if t.contains("Tok::Name{name:name.to_owned()}") || t.contains("Tok::Name{name:name.to_owned()}") {
                 cx.ok(rule, "soft_to_name builds Tok::Name from the spelling");
             } else {
                 cx.fail(rule, &format!("{}/soft_to_name/name", rule), &sk.loc(*f), "soft_to_name does not build Tok::Name { name }");
